@@ -2,16 +2,17 @@
    Statements only; proofs are in Proofs/Rrect.v.  pixels() branches on stroke_color, draw_styled on
    effective_stroke_color, and the fill-only arm of draw_styled bypasses StyledScanlines: both differences are covered.
    KNOWN FINDING (class K06_rrect_fill_outside_stroke = K01_rrect_fill_outside_stroke): fill only + width > 0 with a
-   fill_area() point outside stroke_area(): draw() paints it, pixels() does not. *)
-From EG Require Import Base.Prelude Model.Geometry Model.Style Model.Rrect Proofs.Geometry Proofs.Rrect.
+   fill_area() point outside stroke_area(): draw() paints it, pixels() does not.
+   Domain styled_dom: see C06_rrect.v. *)
+From EG Require Import Base.Prelude Model.Geometry Model.Style Model.Rrect Proofs.Geometry Proofs.Curvefacts Proofs.Rrect Proofs.Rrect2.
 
 Theorem C01_rrect_pixels_draw : forall r st bb p,
-  styled_ok r st -> 0 <= stroke_width st -> K06_rrect_fill_outside_stroke r st = false ->
+  styled_dom r st -> 0 <= stroke_width st -> K06_rrect_fill_outside_stroke r st = false ->
   pix_get (writes_of_pixels bb (rr_pixels r st)) p = pix_get (writes_of_calls bb (rr_draw r st)) p.
-Proof. exact rr_pixels_draw. Qed.
+Proof. intros; eapply rr_pixels_draw; eauto using rr_dom_ok, styled_dom_ok. Qed.
 
 Example C01_rrect_nonvacuous :
   let r := RR (R (P (-3) 2) (S 12 9)) (CR (S 3 4) (S 20 1) (S 2 2) (S 0 5)) in
   let st := Style (Some 5) (Some 7) 0 Center Solid in
-  K06_rrect_fill_outside_stroke r st = false /\ length (rr_pixels r st) = 108%nat /\ length (rr_draw r st) = 9%nat.
-Proof. vm_compute. repeat split; reflexivity. Qed.
+  styled_dom r st /\ K06_rrect_fill_outside_stroke r st = false /\ length (rr_pixels r st) = 108%nat /\ length (rr_draw r st) = 9%nat.
+Proof. cbv zeta. split; [split; apply rr_dom_b; vm_compute; reflexivity|]. vm_compute. repeat split; reflexivity. Qed.
